@@ -283,13 +283,30 @@ class World(EventDispatcher):
             f'Entity ID must be hashble, found {entity}, which is not')
 
         if immediate:
-            for component_type in self._entities[entity]:
+            components = self._entities.pop(entity)
+
+            for component_type in components:
                 self._components[component_type].discard(entity)
 
                 if not self._components[component_type]:
                     del self._components[component_type]
 
-            del self._entities[entity]
+            # Event handling, see remove_component
+            for component in components.values():
+                if not hasattr(component, '__events__'):
+                    continue
+
+                if (ON_REMOVE_EVENT_NAME in component.__events__
+                        and self._dispatch_enabled):
+                    getattr(component,
+                            component.__events__[ON_REMOVE_EVENT_NAME])(
+                                entity, self)
+                elif ON_REMOVE_EVENT_NAME in component.__events__:
+                    self.dispatch(ON_SINGLE_DISPATCH_EVENT_NAME,
+                                  ON_REMOVE_EVENT_NAME,
+                                  component, entity, self)
+
+                self.remove_handler(component)
 
         else:
             self._dead_entities.add(entity)
